@@ -144,22 +144,11 @@ def loop_exits(model, res):
 
 
 def write_func_rule(model, res):
-    wf = model.func("broker.market.write_func")
-    inner = [n for n in ast.walk(wf.node) if isinstance(n, ast.FunctionDef) and n is not wf.node]
-    if len(inner) != 1:
-        raise AnalysisError("C05: write_func wrapper not found")
-    body = inner[0].body
-    texts = [ast.unparse(s) for s in body]
-    try:
-        i_call = next(i for i, t in enumerate(texts) if t.startswith("ret = func("))
-        i_flag = next(i for i, t in enumerate(texts) if t == "instance.has_update = True")
-        i_gate = next(i for i, t in enumerate(texts) if t.startswith("if not instance.is_open"))
-    except StopIteration:
-        raise AnalysisError("C05: write_func wrapper shape changed")
-    ok = i_gate < i_call < i_flag and texts[-1] == "return ret"
-    res.ob("R-PHASE", "write_func: gate, then the call, then has_update = True (only after the call returned)", wf.loc(), ok=ok)
-    if not ok:
-        res.find("R-PHASE", "broker.market.write_func", "has_update raised before the wrapped call returned", wf.loc(),
+    from ..rules.common import write_func_shape
+    sh = write_func_shape(model)
+    res.ob("R-PHASE", "write_func: gate, then the call, then has_update = True (only after the call returned)", sh["loc"], ok=sh["order"])
+    if not sh["order"]:
+        res.find("R-PHASE", "broker.market.write_func", "has_update raised before the wrapped call returned", sh["loc"],
                  "write_func must set has_update only after the wrapped operation returned normally, otherwise a rejected operation "
                  "triggers a second status refresh")
 
